@@ -30,7 +30,7 @@ RULE = ('seeded (instant, TZ rule, clock mode) environments x short edit histori
         'and >= 10 timestamps decoded; distinct = (TZ rule, hour bucket of the instant, configuration)')
 BUDGET = {'quick': 40, 'thorough': 900}
 PROBES = ['timestamps_checked', 'dr_dates', 'vd_dates', 'rr_tf_stamps', 'udf_timestamps', 'dst_in_effect', 'negative_offset', 'quarter_hour_zone',
-          'half_hour_zone', 'year_boundary_crossed_by_offset', 'after_2038', 'jitter_mode', 'clock_stepped_back', 'remaster_identity_checked', 'expiration_date_given']
+          'half_hour_zone', 'year_boundary_crossed_by_offset', 'after_2038', 'jitter_mode', 'clock_stepped_back', 'remaster_identity_checked', 'expiration_date_given', 'zone_changed_between_edits']
 ASSUMPTIONS = ['every TZ rule in the catalogue has offsets that are multiples of 15 minutes (the resolution of the ECMA-119 fields)',
                'an instant is compared to the second (the floor of the simulated reading)']
 
@@ -112,6 +112,9 @@ class C19(H.Oracle):
         ctx.world.clock.take_readings()
 
     def on_edit(self, ctx, op, out):
+        if op.get('tz_after'):
+            ctx.world.set_tz(op['tz_after'])
+            ctx.probes['zone_changed_between_edits'] += 1
         r = ctx.world.clock.readings
         if not r:
             return
@@ -280,7 +283,15 @@ class C19(H.Oracle):
 
 
 def generate(seed, tier='quick'):
-    return H.generate(seed, PROFILE)
+    plan = H.generate(seed, PROFILE)
+    # the process changes its time zone between two edits (a service mastering for several zones): under a frozen clock the
+    # same epoch second is then recorded under two zones
+    r = W.World(seed).rng('c19.zonechange')
+    if r.random() < 0.35:
+        for op in plan['ops']:
+            if op['op'] != 'restart' and r.random() < 0.25:
+                op['tz_after'] = r.choice(W.TZ_CATALOGUE)
+    return plan
 
 
 def execute(plan):
